@@ -168,8 +168,9 @@ class ReactionQueryError(Exception):
     """
     Exception raised when input does not conform to RING syntax.
     """
-    def __init__(self, message):
-        self.message = message
+    def __init__(self, *message):
+        # Several call sites pass the message in pieces.
+        self.message = ' '.join(str(m) for m in message)
 
     def __str__(self):
         return self.message
